@@ -36,6 +36,21 @@ type c06vb struct {
 }
 
 func checkC06(run *Run, res *Result) {
+	if run.Cfg.Prop == "C15" {
+		// the start-up scenario (checkpoints left by an earlier, well-behaved session; flushed / re-created vBuckets):
+		// only "what the client asks the server for is a valid, untorn resume point" is judged here
+		for i := range run.Evs {
+			e := &run.Evs[i]
+			if e.K == journal.KSReq && e.Off != nil {
+				if o := e.Off; o.Start > o.Seq || o.Seq > o.End {
+					res.violate("C06", "R5-seq-outside-its-snapshot", e.N, fmt.Sprintf("vb=%d", e.Vb),
+						"member %d vb %d: the stream request carries %s, which violates snapshotStart <= seqNo <= snapshotEnd", e.M, e.Vb, o)
+				}
+				res.probe("stream-request-offset-judged")
+			}
+		}
+		return
+	}
 	st := map[vbKey]*c06vb{}
 	get := func(k vbKey) *c06vb {
 		if st[k] == nil {
